@@ -323,7 +323,7 @@ def mon_init_barrier(case):
                 if base not in c["exts"]:
                     out.append(f"step {i+1}: {n} launched but {base} is not a regular file in the extensions directory")
         for e in es:
-            m = re.match(r"(\w+)\.register=200", e)
+            m = re.match(r"(\S+?)\.register=200", e)
             if m:
                 if delivered_in_gen:
                     out.append(f"step {i+1}: registration of {m.group(1)} accepted after the first invocation had been delivered")
@@ -339,7 +339,7 @@ def mon_init_barrier(case):
             all_reg_step = i + 1
             if not rt_started:
                 out.append(f"step {i+1}: every extension launched in generation {gen} has registered and nothing has failed, yet the runtime was not started")
-        deliveries = [e for e in es if re.match(r"\w+\.next=200,INVOKE", e) or e.startswith("rt.next=200,id#")]
+        deliveries = [e for e in es if re.match(r"\S+?\.next=200,INVOKE", e) or e.startswith("rt.next=200,id#")]
         if deliveries:
             need = set(registered) | {"rt"}
             missing = [x for x in need if x not in asked]
@@ -375,7 +375,7 @@ def mon_fanout(case):
     for i, (ws, obs, side) in enumerate(case["steps"]):
         es = entries(obs)
         for x in side:
-            m = re.match(r"deadline (rt|ext \w+) (id#\d+) (\d+)", x)
+            m = re.match(r"deadline (rt|ext \S+) (id#\d+) (\d+)", x)
             if m:
                 dl.setdefault(m.group(2), {})[m.group(1)] = int(m.group(3))
         if ws[0] in ("ext", "int") and len(ws) > 3 and ws[2] == "register":
@@ -392,7 +392,7 @@ def mon_fanout(case):
             m = re.match(r"rt\.next=200,(id#\d+),.*ctx=ctx(\d+)", e)
             if m:
                 cur = m.group(1); idcaller[cur] = m.group(2)
-            m = re.match(r"(\w+)\.next=200,INVOKE,(id#\d+),arn=(\w+),(\S+)", e)
+            m = re.match(r"(\S+?)\.next=200,INVOKE,(id#\d+),arn=(\w+),(\S+)", e)
             if m:
                 a, idk, arn, tr = m.groups()
                 per_id.setdefault(idk, {}).setdefault(a, 0)
@@ -461,7 +461,7 @@ def mon_completion_barrier(case):
             m = re.match(r"rt\.next=200,(id#\d+),.*ctx=ctx(\d+)", e)
             if m:
                 new_deliveries.append(m.group(1)); idcaller[m.group(1)] = m.group(2)
-            m = re.match(r"(\w+)\.next=200,INVOKE,(id#\d+)", e)
+            m = re.match(r"(\S+?)\.next=200,INVOKE,(id#\d+)", e)
             if m:
                 new_deliveries.append(m.group(2))
         for e in es:
@@ -489,7 +489,7 @@ def mon_completion_barrier(case):
                 rt_holds = m.group(1); rt_responded = False
             if re.match(r"rt\.(response|error)=(202|413)", e):
                 rt_responded = True
-            m = re.match(r"(\w+)\.next=200,INVOKE,(id#\d+)", e)
+            m = re.match(r"(\S+?)\.next=200,INVOKE,(id#\d+)", e)
             if m:
                 got[m.group(1)] = m.group(2)
             m = re.match(r"caller(\d+) done", e)
@@ -550,7 +550,7 @@ def mon_shutdown(case):
                     regs.pop(a, None)
             if e.startswith("sup term:"):
                 termed.add(e[9:])
-            m = re.match(r"(\w+)\.next=200,SHUTDOWN,(\S+)", e)
+            m = re.match(r"(\S+?)\.next=200,SHUTDOWN,(\S+)", e)
             if m:
                 a = m.group(1)
                 shutdown_events[a] = shutdown_events.get(a, 0) + 1
@@ -744,12 +744,12 @@ def mon_agent_final(case):
         if any(e.startswith("ev initStart") or e.startswith("sup exec:runtime-") for e in es):
             final = {}      # new generation: every extension object is new
         for e in es:
-            m = re.match(r"([A-Za-z0-9_]+)\.(next|register)=200", e)
+            m = re.match(r"(\S+?)\.(next|register)=200", e)
             if m and m.group(1) in final and final[m.group(1)][0] < i:
                 st, kind = final[m.group(1)]
                 out.append(f"step {i+1}: {e.split(',')[0]} answered with success although the {kind} report of {m.group(1)} was accepted at step {st+1} (the report is final)")
         for e in es:
-            m = re.match(r"([A-Za-z0-9_]+)\.(exiterror|initerror)=202", e)
+            m = re.match(r"(\S+?)\.(exiterror|initerror)=202", e)
             if m and m.group(1) not in final:
                 final[m.group(1)] = (i, m.group(2))
     return out
